@@ -83,8 +83,13 @@ def run_check(pid, tier, replay=None):
         vh = C.build_harness(scratch)
         if replay:
             obj = json.load(open(replay))
-            recs, crashes, _ = run_driver(vh, scratch, "stack", [json.dumps(obj["case"])], workers=1)
-            bad = crashes or [m for r in recs for m in r["mismatches"] if m["prop"] == pid]
+            if obj.get("kind") == "sources":
+                from .wrapcheck import run_cases
+                res, crashes = run_cases(vh, scratch, [obj["case"]], workers=1, subcmd="sources")
+                bad = crashes or [m for r in res for m in (r.get("mismatches") or []) if m["prop"] == pid]
+            else:
+                recs, crashes, _ = run_driver(vh, scratch, "stack", [json.dumps(obj["case"])], workers=1)
+                bad = crashes or [m for r in recs for m in r["mismatches"] if m["prop"] == pid]
             print("replay:", "reproduced" if bad else "not reproduced", (bad or [])[:1])
             if bad:
                 print("VIOLATION property=%s replay=%s  (reproduced)" % (pid, replay))
@@ -141,6 +146,39 @@ def run_check(pid, tier, replay=None):
                 case["id"] = r["id"]
                 rp = C.write_replay(pid, r["id"], {"property": pid, "kind": "stack", "case": case, "mismatches": r["mismatches"]})
                 violations.append(("case %s (after %d layer(s)): %s" % (r["id"], mine[0]["prefix"], mine[0]["detail"][:220]), rp))
+        known_hits, pipeline = set(), None
+        if pid == "C02":
+            # the same statement through real sources inside Config: the struct a caller passes to Config as defaults is also the
+            # template of its flag source (what ez does); Config asks the source for its value, nothing may be written into that
+            # struct. Cases come from Sources.tla (one field, every leaf kind), executed by the sources driver.
+            import re
+            from . import srccheck as S
+            from .wrapcheck import run_cases
+            d = scratch.sub("c02src")
+            S.write_model(d, S.ALL_KINDS, ["none", "snake"], ["struct", "pstruct"], 1, 1, False, False)
+            sres = C.run_tlc(d, "MCSources", "S.cfg", timeout=1500)
+            if not sres.ok:
+                raise C.Inconclusive("Sources.tla violates its own properties: specification alarm\n" + sres.out[-1500:])
+            scases = S.cases_of(sres.out)
+            for i, c in enumerate(scases):
+                c.update(id="t%d" % i, seed=i, garbage="")
+            sresults, scrashes = run_cases(vh, scratch, scases, workers=12, subcmd="sources")
+            sby = {c["id"]: c for c in scases}
+            known = C.load_known()["findings"]
+            hits = 0
+            for r in sresults:
+                for m in r.get("mismatches") or []:
+                    if m["prop"] != "C02":
+                        continue
+                    hits += 1
+                    k = next((k for k in known if k["property"] == "C02" and re.search(k["match"], m["detail"])
+                              and (not k.get("src") or m.get("src") in k["src"])), None)
+                    if k:
+                        known_hits.add(k["what"])
+                    elif len(violations) < 30:
+                        rp = C.write_replay(pid, r["id"], {"property": pid, "kind": "sources", "case": sby[r["id"]], "mismatches": [m]})
+                        violations.append(("case %s [%s]: %s" % (r["id"], m.get("src"), m["detail"][:220]), rp))
+            pipeline = {"cases": len(scases), "distinct_states": sres.distinct, "template_writes_seen": hits, "crashes": len(scrashes)}
         nontriv = 0
         for c in uniq:
             j = json.loads(c)
@@ -154,11 +192,12 @@ def run_check(pid, tier, replay=None):
                     "shape with unset / set / set-empty per leaf and nil / non-nil parents); executed for every prefix of the layers with "
                     "the same defaults object; non-trivial = two or more layers or a nested struct; distinct by content",
             "model_runs": runs, "toggle_selftest": selftest, "mismatches_for_other_properties": other, "crashes": len(crashes),
+            "through_real_sources": pipeline,
             "checker_cmd": "tlc MCStack (exhaustive; CONSTRAINT Emit prints the cases) ; vh stack cases results",
         }
         C.write_evidence(pid, tier, "model_checking", coverage, time.time() - t0, len(violations),
                          ["types are built with reflect.StructOf over the leaf types listed in DESIGN.md 5.4; interface-typed fields are outside the property's quantifier",
                           "memory reachable only through unexported fields is not inspected (as in the statement)"])
-        return C.finish(pid, violations[:25])
+        return C.finish(pid, violations[:25], sorted(known_hits))
     finally:
         scratch.cleanup()
